@@ -190,7 +190,10 @@ def run(ctx):
     ctx.ob("T4", MISC, "WaitTimer", "done = count == 0", ok, "" if ok else f"done <= {d[0].v if d else '?'}")
     cs = fx.find(domain="sync", target="count")
     dec = [a for a in cs if a.v == "count - 1"]
-    rel_ = [a for a in cs if a.v in ("count.reset", "t")]
+    # the reload value is the counter's declared reset value, however it is spelled (count.reset / t / int(t))
+    dc0 = fx.decl.get("count")
+    rst_txt = {norm(k.value) for k in dc0[1].keywords if k.arg == "reset"} if dc0 is not None and dc0[1] is not None else set()
+    rel_ = [a for a in cs if a.v in ({"count.reset", "t", "int(t)"} | rst_txt)]
     ok = len(dec) == 1 and B.equivalent(q.gformula(fx, dec[0]), B.from_expr("self.wait & ~(count == 0)"))
     ctx.ob("T4", MISC, "WaitTimer", "decrement under wait & ~done", ok, "" if ok else f"{[(a.v, a.gtext()) for a in cs]}")
     ok = len(rel_) == 1 and B.equivalent(q.gformula(fx, rel_[0]), B.Not(B.A("self.wait")))
